@@ -14,7 +14,8 @@ MOD_BUF = lambda ctx: [(ctx.self, "data"), (ctx.self, "_total_mem"), (WORLD, "$f
 
 
 def out_info_set(ctx, a):
-    return Not(is_none(ctx.get(a, "_output_info")))
+    """the adapter's infos are exchanged (spilled entries are re-labelled with the input units)"""
+    return And(Not(is_none(ctx.get(a, "_output_info"))), Not(is_none(ctx.get(a, "_input_info"))))
 
 
 def buf_inv(ctx, a):
@@ -181,7 +182,17 @@ def register(reg):
     register_buffers(reg)
 
 
+_AD = {"name": "time-adapter-histories", "script": "replay/drivers/seq_adapter.py", "args": ["--json"], "timeout": 3000}
+BOUNDED = {"C10": [_AD], "C11": [_AD], "C12": [_AD]}
 REPLAY = {}
+for _cls in CACHING:
+    REPLAY[(f"{T}.{_cls}._interpolate", _cls)] = "seq_adapter.py"
+    REPLAY[(f"{T}.TimeCachingAdapter._get_data", _cls)] = "seq_adapter.py"
+for _q in (f"{T}.TimeCachingAdapter._clear_cached_data", f"{T}.TimeCachingAdapter._finalize", f"{T}.TimeCachingAdapter._unpack",
+           f"{T}.TimeCachingAdapter._source_updated", "finam.adapters.time_integration.TimeIntegrationAdapter._source_updated",
+           "finam.adapters.time_integration.TimeIntegrationAdapter._get_data", "finam.adapters.time_integration.SumOverTime._interpolate",
+           "finam.adapters.time_integration.AvgOverTime._interpolate", "finam.sdk.adapter.Adapter.finalize"):
+    REPLAY[_q] = "seq_adapter.py"
 
 
 # =================================================================================================
